@@ -63,6 +63,8 @@ func classify(f *Finding, input string, cfg Config) {
 		f.ID = "K21"
 	case f.Family == "unicode-range" && has("output-not-in-grammar"):
 		f.ID = "N15"
+	case reNewMath.MatchString(in) && (f.Family == "bgpos" || f.Family == "background") && (has("output-not-in-grammar") || has("tokens-")):
+		f.ID = "N22" // a math function as an offset of a background position (before the rules of repaired findings, whose shapes it can contain)
 	case cfg.Keep && hasExponentNumber(Tokenize(preprocess(in))) && (has("number:") || has("fusion:") || has("tokens-") || has("output-not-in-grammar") || has("zero-unit") || has("unit-changed")):
 		f.ID = "N01"
 	case cfg.Keep && cfg.Prec > 0 && reAll9.MatchString(in) && reDanglingDot.MatchString(f.OutPart) && (has("number:") || has("tokens-") || has("fusion:") || has("output-not-in-grammar")):
@@ -73,8 +75,6 @@ func classify(f *Finding, input string, cfg Config) {
 		f.ID = "N03"
 	case reNewMath.MatchString(in) && has("zero-unit-dropped:length"):
 		f.ID = "N13" // K92, repaired: a recurrence is a new violation
-	case reNewMath.MatchString(in) && (f.Family == "bgpos" || f.Family == "background") && (has("output-not-in-grammar") || has("tokens-")):
-		f.ID = "N22" // a math function as an offset of a background position
 	case f.Family == "bgpos" && laterLayerHas3(in):
 		f.ID = "N16"
 	case f.Family == "background" && reTwoValueSize.MatchString(in) && (has("width:") || has("height:") || has("size:") || has("output-not-in-grammar")):
